@@ -5,7 +5,10 @@
     in EVERY arithmetic [NumOps F] - the reals, binary64, binary32 -, the map of an explicit
     function of one row over the rows of the batch.  [None] is a panic; [guard c r] is "panic
     unless c".  What stays outside is the order in which one float dot product is summed
-    ([dot] : a 1-D ndarray dot, [mdot] : one entry of a matrixmultiply product). *)
+    ([dot] : a 1-D ndarray dot, [mdot] : one entry of a matrixmultiply product).
+    Every transliteration is run against the Rust implementation on every check, bit for bit and
+    including the panics of the shape guards (C03/CorrMat.v); C03/PropertiesCert.v says what a
+    passing case certifies. *)
 From Coq Require Import List NArith Reals.
 From LinfaVerif Require Import Common.Num Common.NdSum C03.Model C03.MatModel C03.MatProofs.
 Import ListNotations.
